@@ -69,8 +69,11 @@ CatPorts(outs, o, maxo) == IF o > maxo THEN <<>>
 
 Ctx(ev) == [target |-> ev.scn.target, comp |-> ev.scn.comp, kind |-> ev.scn.kind, scn |-> ev.scn.id]
 
+(* scenarios in which the environment refuses one rename ("rename_fail"): that output cannot be published; what must hold *)
+(* is only that nothing incomplete appears under a final name (the system-call rules here, every crash point in KViol)   *)
 RefViol(ev, ln) ==
     LET sc   == ev.scn
+        rf   == "rename_fail" \in DOMAIN ev.scn
         log  == ev.log
         sysl == {i \in 1..Len(log) : log[i].t = "sys"}
         apil == {i \in 1..Len(log) : log[i].t = "api"}
@@ -86,9 +89,9 @@ RefViol(ev, ln) ==
     \o (IF named /\ \E i, j \in sysl : /\ i < j /\ log[i].c = "rename" /\ log[j].c \in {"write", "writev"} /\ log[j].o = log[i].o
                                        /\ ~\E a \in apil : i < a /\ a < j /\ log[a].c = "rot"     \* (a later output may use the name again)
         THEN <<[l |-> ln, prop |-> "C15,C13", ctx |-> Ctx(ev), what |-> "an output received data after it was renamed to its final name"]>> ELSE <<>>)
-    \o (IF ev.status = 0 /\ \E x \in Range(ev.outs) : ~x.final /\ ~x.old      \* (a stale .part of a name that was never opened stays as it was)
+    \o (IF ~rf /\ ev.status = 0 /\ \E x \in Range(ev.outs) : ~x.final /\ ~x.old      \* (a stale .part of a name that was never opened stays as it was)
         THEN <<[l |-> ln, prop |-> "C15", ctx |-> Ctx(ev), what |-> "a .part file is left after all outputs were closed"]>> ELSE <<>>)
-    \o (IF ev.status # 0 THEN <<>>
+    \o (IF ev.status # 0 \/ rf THEN <<>>
         ELSE IF sc.target = "writer" THEN
             LET exp == ExpW(sc.steps, {sc.chunks[i].id : i \in {j \in 1..Len(sc.chunks) : sc.chunks[j].n = 0}}, 1, <<>>, <<>>)
                 nm  == Names(sc.steps)
